@@ -177,7 +177,7 @@ Proof. exact SpecCallProofs.assignment_to_other_names_is_global. Qed.
    counterexample) *)
 Theorem C06_foreach_variables_scoped : forall (o : stdlib) (fns : fnmap) (obj : hostval) (afs : aftable) (f : nat) (idx ident : str)
     (v : expr) (body : list stmt) (m m' : mstate) (x : str),
-  x = ident \/ idx <> [] /\ x = idx ->
+  x = trim_dollar ident \/ idx <> [] /\ x = trim_dollar idx ->
   sx o fns obj afs (S f) (EForeach idx ident v body) m = XNormal m' ->
   exists (m1 : mstate) (c : value) (s : list value),
     sx o fns obj afs f v m = XNormal m1 /\ stk m1 = c :: s /\
